@@ -88,6 +88,14 @@ class Stream(OFD):
         self.rx_total = 0
         self.io_times: Optional[List[Tuple[float, str, int]]] = None
         self.on_data: Optional[Callable[[], None]] = None
+        self.t_end: Optional[float] = None      # first shutdown(WR) / close / reset by the owner
+        self.on_end: Optional[Callable[['Stream'], None]] = None
+
+    def _ended(self) -> None:
+        if self.t_end is None:
+            self.t_end = self.world.now
+            if self.on_end is not None:
+                self.on_end(self)
 
     # -- readiness -----------------------------------------------------
     def room(self) -> int:
@@ -190,6 +198,7 @@ class Stream(OFD):
         if self.rst_rcvd or (self.peer is not None and self.peer.closed and self.err is not None):
             raise OSError(errno.ENOTCONN, 'Transport endpoint is not connected')
         if not self.wr_shut:
+            self._ended()
             self.wr_shut = True
             p = self.peer
             if p is not None and not p.closed:
@@ -202,6 +211,7 @@ class Stream(OFD):
         """Abortive close (RST)."""
         if self.closed:
             return
+        self._ended()
         self.closed = True
         self.wr_shut = True
         p = self.peer
@@ -215,6 +225,7 @@ class Stream(OFD):
     def on_last_close(self, world: 'World') -> None:
         if self.closed:
             return
+        self._ended()
         unread = bool(self.rx)
         self.closed = True
         p = self.peer
